@@ -1255,6 +1255,16 @@ func (m *metadataAPI) ChangeLeader(streamName, leader string, partitionID int32,
 		return nil
 	}
 
+	// The new leader was picked from the ISR the controller saw when it
+	// proposed the change. If the replica has been removed from the ISR by an
+	// operation committed in between, it may be missing committed messages:
+	// keep the current leader. Followers will report it again if it is gone
+	// and the controller will pick a leader from the current ISR.
+	if !partition.inISR(leader) {
+		m.logger.Warnf("Ignoring leader change for partition %s to %s, which is not in the ISR", partition, leader)
+		return nil
+	}
+
 	oldLeader, _ := partition.GetLeader()
 
 	if err := partition.SetLeader(leader, epoch); err != nil {
